@@ -232,9 +232,14 @@ NICK_CHARS = "abcdefghijklmnopqrstuvwxyzABCDEFGHIJKLMNOPQRSTUVWXYZ0123456789 _-.
 SLOT = st.one_of(st.sampled_from([0, 1, 2, 3, 4, 27, 28]), st.integers(0, 28))
 
 
+SPECIAL_NICKS = ["Errol", "Errata 2", "Err", "ERR", "err", "Studio Errata", "100% ink", "half 50%", "%s", "{0}", "%d%d",
+                 "OK", "OKeefe", "!bang", "QT", "ST"]
+
+
 @st.composite
 def nicknames(draw):
-    core = draw(st.text(NICK_CHARS, max_size=16)).strip()
+    core = draw(st.one_of(st.text(NICK_CHARS, max_size=16), st.text(NICK_CHARS, max_size=16),
+                          st.sampled_from(SPECIAL_NICKS), st.text("abAB01 %{}$()[]*+", max_size=16))).strip()
     if "Err:" in core:
         core = core.replace("Err:", "Err_")
     pad_l = draw(st.sampled_from(["", "", " ", "  ", "\t"]))
@@ -303,13 +308,13 @@ def int32_grid():
 
 
 def nickname_grid():
-    names = ["AxiDraw", "AXIDRAW", "axidraw", "Axi Draw", " AxiDraw ", "", "East", "east"]
+    names = ["AxiDraw", "AXIDRAW", "axidraw", "Axi Draw", " AxiDraw ", "", "East", "east", "Errol", "100% ink", "OKeefe"]
     for a, b in itertools.product(names, repeat=2):
         yield {"ops": [["nick", a], ["nick", b], ["qnick"], ["nick", a], ["qnick"]]}
 
 
 def run(ctx):
-    ctx.exhaustive("nickname_grid", nickname_grid(), body, "every ordered pair of 8 nicknames (case / padding variants) "
+    ctx.exhaustive("nickname_grid", nickname_grid(), body, "every ordered pair of 11 nicknames (case / padding variants, Err.., %, OK..) "
                                                            "written in a row, read back, first written again")
     ctx.exhaustive("motor_grid", motor_grid(), body, "(r1, r2) in (-2..8)^2 x 20 prior board motor states")
     ctx.exhaustive("int32_grid", int32_grid(), body, "40 boundary int32 values x 29 slots, then every slot read back")
